@@ -465,7 +465,8 @@ func ival(v any) int {
 
 type ringA struct {
 	hs    []*lists.Ring[int]
-	blind bool // a walk hit walkBound
+	blind bool         // a walk hit walkBound
+	fresh map[int]bool // handles of zero Rings no operation has named yet (shared by both sides)
 }
 
 func (a *ringA) idx(r *lists.Ring[int]) int {
@@ -542,8 +543,13 @@ func (a *ringA) do(op Op) (r ret) {
 			r = ret{Kind: "H", V: a.add(a.h(op.A).Unlink(op.B))}
 		case "RLen":
 			x := a.h(op.A)
-			if _, ok := doSeqA(x); !ok {
+			if a.fresh[op.A] {
+				// a zero Ring nothing has touched yet: Len itself must be the first call (its own lazy
+				// initialisation is what is compared); a fresh zero Ring cannot be large
+				r = ret{Kind: "V", V: x.Len()}
+			} else if seq, ok := doSeqA(x); !ok {
 				r = ret{Kind: "V", V: -98}
+				a.blind = a.blind || (len(seq) == 1 && seq[0] == -99)
 			} else {
 				r = ret{Kind: "V", V: x.Len()}
 			}
@@ -592,7 +598,8 @@ func (a *ringA) observe(fresh map[int]bool) rstate {
 
 type ringB struct {
 	hs    []*stdring.Ring
-	blind bool // a walk hit walkBound
+	blind bool         // a walk hit walkBound
+	fresh map[int]bool // handles of zero Rings no operation has named yet (shared by both sides)
 }
 
 func (a *ringB) idx(r *stdring.Ring) int {
@@ -669,8 +676,13 @@ func (a *ringB) do(op Op) (r ret) {
 			r = ret{Kind: "H", V: a.add(a.h(op.A).Unlink(op.B))}
 		case "RLen":
 			x := a.h(op.A)
-			if _, ok := doSeqB(x); !ok {
+			if a.fresh[op.A] {
+				// a zero Ring nothing has touched yet: Len itself must be the first call (its own lazy
+				// initialisation is what is compared); a fresh zero Ring cannot be large
+				r = ret{Kind: "V", V: x.Len()}
+			} else if seq, ok := doSeqB(x); !ok {
 				r = ret{Kind: "V", V: -98}
+				a.blind = a.blind || (len(seq) == 1 && seq[0] == -99)
 			} else {
 				r = ret{Kind: "V", V: x.Len()}
 			}
@@ -738,7 +750,13 @@ func (a *ringB) sameRing(r, s int) (same, both bool) {
 
 // touch maintains the set of fresh zero Rings (handle indices): RZero creates one, any operation that
 // names a handle as an argument ends its freshness (the Coq side applies the same syntactic rule).
-func touch(fresh map[int]bool, op Op, r ret) {
+func touch(c *core.Ctx, fresh map[int]bool, op Op, r ret) {
+	hit := func(k int, what string) {
+		if fresh[k] {
+			c.Count("fresh_zero_" + what) // this call was the first one on a zero Ring
+			delete(fresh, k)
+		}
+	}
 	switch op.K {
 	case "RZero":
 		if r.Kind == "H" && r.V >= 0 {
@@ -746,12 +764,25 @@ func touch(fresh map[int]bool, op Op, r ret) {
 		}
 	case "RNew":
 	case "RLink":
-		delete(fresh, op.A)
-		delete(fresh, op.B)
+		if fresh[op.A] && op.A == op.B {
+			c.Count("fresh_zero_RLink_self")
+		}
+		hit(op.A, "RLink_r")
+		hit(op.B, "RLink_s")
+	case "RUnlink":
+		if op.B > 0 {
+			hit(op.A, "RUnlink")
+		} else {
+			delete(fresh, op.A) // returns nil before touching the ring; the observation will initialise it
+		}
 	default:
-		delete(fresh, op.A)
+		hit(op.A, op.K)
 	}
 }
+
+// freshZeroOps: every one of these must have been the first call on a zero Ring at least once per run,
+// otherwise the lazy-initialisation branches are not compared and the oracle says so.
+var freshZeroOps = []string{"RNext", "RPrev", "RMove", "RLink_r", "RLink_s", "RUnlink", "RLen", "RDo"}
 
 // ---- executing a case ----------------------------------------------------------------------
 
@@ -882,8 +913,8 @@ func execCase(c *core.Ctx, cs Case, emit bool) {
 		}
 		return
 	}
-	a, b := &ringA{}, &ringB{}
 	fresh := map[int]bool{}
+	a, b := &ringA{fresh: fresh}, &ringB{fresh: fresh}
 	sameL, diffL := false, false
 	for i, op := range cs.Ops {
 		c.Count("op_" + op.K)
@@ -907,7 +938,7 @@ func execCase(c *core.Ctx, cs Case, emit bool) {
 		if ra.Kind == "P" {
 			c.Count("panic_" + ra.Panic)
 		}
-		touch(fresh, op, ra)
+		touch(c, fresh, op, ra)
 		sa, sb := a.observe(fresh), b.observe(fresh)
 		if da, db := fmt.Sprint(sa), fmt.Sprint(sb); da != db {
 			fail("state differs from container/ring", fmt.Sprintf("after op %d %v: lists %s, container/ring %s", i, op, da, db))
@@ -1039,6 +1070,11 @@ func run(c *core.Ctx) {
 		execCase(c, Case{"ring", genRing(c.Rng, 3+c.Rng.Size(c.N(16, 40, 60)))}, true)
 	}
 	runBig(c)
+	for _, k := range freshZeroOps {
+		if c.Stats["fresh_zero_"+k] == 0 {
+			c.Unobservable("no case had " + k + " as the first call on a zero Ring: its lazy initialisation was not compared")
+		}
+	}
 }
 
 // genList builds a history while running it on container/list, so that handles can be chosen by
